@@ -388,7 +388,8 @@ pub fn subs(run: &Arc<Run>) -> Vec<Arc<dyn Sub>> {
         // adaptive seeds: few queries, larger remainder
         let idx = |arr: &[usize], v: usize| arr.iter().position(|x| *x == v).unwrap();
         let mut adaptive_pts = vec![];
-        for (q, rem, n) in [(1usize, 3usize, 16usize), (2, 7, 32), (2, 3, 16), (3, 15, 64)] {
+        // the last three have ZERO FRI layers (the remainder commitment is the only FRI commitment)
+        for (q, rem, n) in [(1usize, 3usize, 16usize), (2, 7, 32), (2, 3, 16), (3, 15, 64), (3, 15, 16), (2, 7, 8), (1, 31, 16)] {
             let mut a = family::base_point();
             a.d[8] = idx(&family::QUERIES, q);
             a.d[13] = idx(&family::REMS, rem);
